@@ -74,6 +74,19 @@ DESC = {
     'C17-g': 'spawn decision from the total branch count: a lone step is spawned once another branch has finished', 'C17-h': 'handler operand evaluated after the steps',
     'C18-f': 'map/and_then handler operand evaluated inside the success closure (its panic is swallowed on failure)',
     'C19-f': 'lazy iterator adaptor left open at a step boundary is collected into a Vec', 'C19-g': 'failure path of sync try macros collects the failed indices into a Vec',
+    # round 5
+    'C08-i': 'is_block_expr widened to if / match / unsafe / loop: such operands are hoisted and evaluated by the caller', 'C08-j': '`try_spawn!` alias configured with is_spawn: false',
+    'C09-i': 'the last active branch of a step is not spawned (polled inside the macro\'s own future)', 'C09-j': '`try_async_spawn!` alias configured with is_spawn: false',
+    'C10-i': 'parenthesised / grouped blocks `({ .. })` hoisted like block captures',
+    'C11-i': 'hoisted blocks of step k+1 emitted before the failure check of step k (sync try)', 'C11-j': 'statement-less value blocks `{ call() }` of single-operand operators not hoisted',
+    'C12-i': 'deferred error-side operators (`~<|`, `~<=`, `~!>`) do not start a step (captures read names one step stale)',
+    'C13-g': 'async macros evaluate the handler operand after the steps', 'C13-h': 'thread-spawning macros evaluate the handler operand lazily at the call site (never on failure)',
+    'C14-i': 'generator: `~` lost on an operator followed by `>>>`', 'C14-j': 'generator: typed `<->` emits its last two types swapped',
+    'C15-i': 'non-identifier let pattern accepted when the value contains `&&` / `||`', 'C15-j': 'junk after an operand-less operator behind a block operand becomes a new branch',
+    'C16-i': 'explicit lazy_branches(..) applied twice on the thread-spawning macros (branches never run)', 'C16-j': 'lazy branch closures are `move` only in the spawn macros',
+    'C17-i': 'wrapper closure made `move` (writes to Copy locals go to a private copy)', 'C17-j': 'thread-name prefix cached in a per-call-site static OnceLock',
+    'C18-g': 'wrapper placeholder member loses the Deferred flag (`~op >>>` merges into the previous step)',
+    'C19-h': 'success flags of a step with more than 32 active branches built with vec!',
     'C20-g': 'thread-local "last matched operator" hint tried first (`=>` wins over `=>[]` after a history ending in `=>`)', 'C20-h': 'thread-local registry of let names cleared only on the success path',
 }
 rows = []
